@@ -143,7 +143,7 @@ func (w *World) Settle() { synctest.Wait() }
 
 // NewConn creates the PacketConn bound to addr.
 func (w *World) NewConn(addr Addr) *MemConn {
-	c := &MemConn{w: w, addr: addr, inbox: make(chan inPkt, 4096), closed: make(chan struct{}), dlChanged: make(chan struct{}, 1)}
+	c := &MemConn{w: w, addr: addr, inbox: make(chan inPkt, 4096), closed: make(chan struct{}), dlChanged: make(chan struct{}, 1), wdlChanged: make(chan struct{}, 1)}
 	w.mu.Lock()
 	w.conns[addr] = c
 	w.perSrc[addr] = 0 // emission indices are per connection object
@@ -289,6 +289,9 @@ type MemConn struct {
 	dlChanged chan struct{}
 	// WriteErr, if set, is returned by WriteTo instead of emitting.
 	WriteErr error
+	// stall, if set, makes one WriteTo block the way a back-pressured socket does (ext_stall.go).
+	stall      atomic.Pointer[Stall]
+	wdlChanged chan struct{}
 }
 
 var errTimeout = &timeoutError{}
@@ -348,6 +351,11 @@ func (c *MemConn) WriteTo(p []byte, addr net.Addr) (int, error) {
 	if werr != nil {
 		return 0, werr
 	}
+	if st := c.stall.Load(); st != nil {
+		if err := st.wait(c); err != nil {
+			return 0, err
+		}
+	}
 	dst, ok := addr.(Addr)
 	if !ok {
 		dst = Addr(addr.String())
@@ -397,6 +405,10 @@ func (c *MemConn) SetWriteDeadline(t time.Time) error {
 	c.mu.Lock()
 	c.wdl = t
 	c.mu.Unlock()
+	select {
+	case c.wdlChanged <- struct{}{}:
+	default:
+	}
 	return nil
 }
 
